@@ -749,3 +749,189 @@ pub fn sweep(out_dir: &str, what: &str) -> i32 {
     println!("sweep {what}: bad={n}");
     0
 }
+
+// ------------------------------------------------------------------------------------------ scale
+/// Behaviour at sizes far beyond the exhaustive scenarios (KiB .. MiB): growth events of push
+/// loops, cloning of long strings, single calls on long strings compared with String. Only
+/// scalars are recorded; the TLC monitor (Convert.tla) evaluates the predicates.
+pub fn scale(out_dir: &str, thorough: bool, seed: u64) -> i32 {
+    std::fs::create_dir_all(out_dir).unwrap();
+    let mut r = Rng::new(seed ^ 0x5CA1E);
+    let mut recs: Vec<Value> = vec![];
+    let final_len: usize = if thorough { 4 << 20 } else { 1 << 20 };
+    // ---- push loops: every growth event, from four kinds of start
+    static LONG_STATIC: &str = "a static text that is longer than sixteen bytes, used as the start of a push loop";
+    for (start, piece) in [("inline", "a"), ("static", "a"), ("shared", "€"), ("heap-exact", "ab"), ("with_capacity", "𝄞")] {
+        let before0 = shim::begin_call(&[]);
+        let mut keep: Option<LeanString> = None;
+        let mut s = match start {
+            "inline" => LeanString::new(),
+            "static" => LeanString::from_static_str(LONG_STATIC),
+            "shared" => {
+                let a = LeanString::from("shared start of twenty-six");
+                keep = Some(a.clone());
+                a
+            }
+            "heap-exact" => LeanString::from("exactly as long as needed!"),
+            _ => LeanString::with_capacity(100),
+        };
+        let mut std = s.as_str().to_string();
+        let cap0 = s.capacity();
+        let mut events = 0u64;
+        let _ = shim::end_call(before0);
+        while s.len() < final_len {
+            let (len, cap, ptr) = (s.len(), s.capacity(), s.as_ptr() as usize);
+            let before = shim::begin_call(&[]);
+            s.push_str(piece);
+            let st = shim::end_call(before);
+            std.push_str(piece);
+            if st.d_a + st.d_r > 0 {
+                events += 1;
+                recs.push(json!({"k":"grow","start":start,"len":len,"add":piece.len(),"cap1":cap,"cap2":s.capacity(),"dA":st.d_a,"dR":st.d_r}));
+            } else if ptr != s.as_ptr() as usize || s.capacity() != cap {
+                recs.push(json!({"k":"bigop","op":"push-moved","teq":true,"len2":s.len(),"explen":s.len(),"cap2":s.capacity(),"resok":false,"fits":true,"dA":0,"dR":0,"sameptr":false}));
+            }
+        }
+        recs.push(json!({"k":"loop","start":start,"cap0":cap0,"final":s.len(),"events":events,"teq":s.as_str() == std,"lenok":s.len() == std.len()}));
+        drop(keep);
+    }
+    // ---- reserve / insert growth at large sizes
+    for _ in 0..(if thorough { 60 } else { 20 }) {
+        let len = 1000 + r.below(200_000);
+        let mut s = LeanString::from("x".repeat(len).as_str());
+        let add = *r.pick(&[1usize, 7, len / 3, len / 2, len / 2 + 1, len, 3 * len]);
+        let how = r.below(3);
+        let before = shim::begin_call(&[]);
+        match how {
+            0 => s.reserve(add),
+            1 => s.insert_str(len / 2, &"y".repeat(add)),
+            _ => s.push_str(&"z".repeat(add)),
+        }
+        let st = shim::end_call(before);
+        let how_name = ["reserve", "insert", "push_str"][how];
+        recs.push(json!({"k":"grow","start":how_name,"len":len,"add":add,"cap1":len,"cap2":s.capacity(),"dA":st.d_a,"dR":st.d_r}));
+    }
+    // ---- cloning at length
+    for len in [17usize, 100, 4096, 65536, 1 << 20] {
+        for via in ["clone", "clone_from", "from_ref", "tls"] {
+            for truncated in [false, true] {
+                let a = LeanString::from("q".repeat(len).as_str());
+                let mut src = a.clone();
+                if truncated {
+                    src.truncate(len / 2 + 9);
+                }
+                let before = shim::begin_call(&[]);
+                let c = match via {
+                    "clone" => src.clone(),
+                    "clone_from" => {
+                        let mut d = LeanString::new();
+                        d.clone_from(&src);
+                        d
+                    }
+                    "from_ref" => LeanString::from(&src),
+                    _ => src.to_lean_string(),
+                };
+                let st = shim::end_call(before);
+                let sameptr = c.as_ptr() == src.as_ptr();
+                let eq = c == src && c.as_str() == src.as_str();
+                let rcok = c.__verif_refcount() == Some(3);
+                let expect = src.as_str().to_string();
+                drop(src);
+                let survives = c.as_str() == expect && a.len() == len;
+                recs.push(json!({"k":"bigclone","via":via,"len":c.len(),"truncated":truncated,"dA":st.d_a,"dR":st.d_r,"sameptr":sameptr,"eq":eq,"survives":survives,"rcok":rcok}));
+            }
+        }
+    }
+    // ---- single calls on long strings, compared with String
+    let nops = if thorough { 4000 } else { 800 };
+    let mut s = LeanString::from("0123456789".repeat(3000).as_str());
+    let mut std = s.as_str().to_string();
+    let pieces = ["a", "é", "€", "𝄞", "0123456789abcdef", "xyz"];
+    for _ in 0..nops {
+        let len = s.len();
+        let (cap, ptr) = (s.capacity(), s.as_ptr() as usize);
+        let mut idx = r.below(len + 1);
+        while !std.is_char_boundary(idx) {
+            idx -= 1;
+        }
+        let k = if len > 200_000 { 3 } else if len < 5_000 { 0 } else { r.below(8) };
+        let piece = *r.pick(&pieces);
+        let before = shim::begin_call(&[]);
+        let (op, resok, added): (&str, bool, usize) = match k {
+            0 => {
+                let big = piece.repeat(1 + r.below(400));
+                s.insert_str(idx, &big);
+                std.insert_str(idx, &big);
+                ("insert_str", true, big.len())
+            }
+            1 => {
+                s.push_str(piece);
+                std.push_str(piece);
+                ("push_str", true, piece.len())
+            }
+            2 => {
+                if idx < len {
+                    let a = s.remove(idx);
+                    let b = std.remove(idx);
+                    ("remove", a == b, 0)
+                } else {
+                    ("remove-skip", true, 0)
+                }
+            }
+            3 => {
+                let mut m = idx.max(len / 2).min(len);
+                while !std.is_char_boundary(m) {
+                    m -= 1;
+                }
+                s.truncate(m);
+                std.truncate(m);
+                ("truncate", true, 0)
+            }
+            4 => ("pop", s.pop() == std.pop(), 0),
+            5 => {
+                let mut i = 0u32;
+                let mut j = 0u32;
+                s.retain(|_| {
+                    i += 1;
+                    i % 97 != 0
+                });
+                std.retain(|_| {
+                    j += 1;
+                    j % 97 != 0
+                });
+                ("retain", true, 0)
+            }
+            6 => {
+                let c = piece.chars().next().unwrap();
+                s.insert(idx, c);
+                std.insert(idx, c);
+                ("insert", true, c.len_utf8())
+            }
+            _ => {
+                s.extend(piece.chars().cycle().take(50));
+                std.extend(piece.chars().cycle().take(50));
+                ("extend", true, 0)
+            }
+        };
+        let st = shim::end_call(before);
+        let fits = added > 0 && len + added <= cap;
+        recs.push(json!({"k":"bigop","op":op,"teq":s.as_str() == std,"len2":s.len(),"explen":std.len(),"cap2":s.capacity(),"resok":resok,
+            "fits":fits,"dA":st.d_a,"dR":st.d_r,"sameptr":ptr == s.as_ptr() as usize}));
+    }
+    drop(s);
+    let errs = shim::finish_history();
+    let mut out = std::io::BufWriter::new(std::fs::File::create(format!("{out_dir}/conv_000.ndjson")).unwrap());
+    for rec in &recs {
+        writeln!(out, "{}", rec).unwrap();
+    }
+    out.flush().unwrap();
+    let mut counts: BTreeMap<String, u64> = BTreeMap::new();
+    for rec in &recs {
+        *counts.entry(format!("{}", rec["k"].as_str().unwrap())).or_default() += 1;
+    }
+    let samples: Vec<&Value> = recs.iter().filter(|r| r["k"] == "grow").step_by(17).take(3).chain(recs.iter().filter(|r| r["k"] == "loop").take(2)).collect();
+    let summary = json!({"records":recs.len(),"counts":counts,"end_errors":errs,"samples":samples});
+    std::fs::write(format!("{out_dir}/conv_summary.json"), serde_json::to_string_pretty(&summary).unwrap()).unwrap();
+    println!("scale: records={}", recs.len());
+    0
+}
